@@ -943,17 +943,18 @@ func DirSizeTruth(dir string) (follow, proper int64, hasLink bool) {
 	return
 }
 
-// DirSizeNaive: links followed with every path counted (a directory reachable by two paths counts twice); -1 when
-// the links form a cycle, where this reading is not defined.
+// DirSizeNaive: links followed and every path counted (a directory reachable by two paths counts twice), except that a
+// path never enters a directory that is already on it (a link back to an ancestor adds nothing): the "as the client
+// sees it when listing" reading, finite also when links form cycles. -1 if the walk would be unreasonably large.
 func DirSizeNaive(dir string) int64 {
 	var stack []os.FileInfo
-	cyclic := false
 	steps := 0
+	huge := false
 	var rec func(p string) int64
 	rec = func(p string) int64 {
 		steps++
-		if cyclic || steps > 400000 {
-			cyclic = true
+		if huge || steps > 400000 {
+			huge = true
 			return 0
 		}
 		di, err := os.Stat(p)
@@ -962,7 +963,6 @@ func DirSizeNaive(dir string) int64 {
 		}
 		for _, v := range stack {
 			if os.SameFile(v, di) {
-				cyclic = true
 				return 0
 			}
 		}
@@ -988,7 +988,7 @@ func DirSizeNaive(dir string) int64 {
 		return sum
 	}
 	n := rec(dir)
-	if cyclic {
+	if huge {
 		return -1
 	}
 	return n
@@ -1014,7 +1014,7 @@ func (m *Model) dirSize(c *Conn, r Req, pr *pre, what string) error {
 		follow, proper, _ := DirSizeTruth(real)
 		if got != follow && got != proper {
 			if naive := DirSizeNaive(real); naive < 0 || got != naive {
-				return failf("dirsize-truth", "%s: %s answered %d, truth %d (following links, each directory once) / %d (regular files proper) / %d (every path through links; -1: cyclic)", what, clean, got, follow, proper, naive)
+				return failf("dirsize-truth", "%s: %s answered %d, truth %d (following links, each directory once) / %d (regular files proper) / %d (every path that does not re-enter a directory it is in)", what, clean, got, follow, proper, naive)
 			}
 		}
 	}
